@@ -34,6 +34,9 @@ type RuleCase struct {
 	// ViaUpdate: every source is first loaded with a version in which its first rule has another definition (same id and
 	// path expression) and then updated to the version under test
 	ViaUpdate bool `json:"reached_via_update,omitempty"`
+	// SecondRoute: every rule has a further route on a path of its own that is never requested, with a path_params
+	// condition that never holds; the rule's first route must be unaffected by it
+	SecondRoute bool `json:"rules_have_a_second_route,omitempty"`
 	Method     string     `json:"method"`
 	Path       string     `json:"request_path"`
 }
@@ -103,6 +106,13 @@ func execRuleCase(rc *RuleCase) (got string, want string, matching int, err erro
 
 			if rc.HasDefault {
 				cfg.Matcher.BacktrackingEnabled = &flag
+			}
+
+			if rc.SecondRoute {
+				cfg.Matcher.Routes = append(cfg.Matcher.Routes, rulecfg.Route{
+					Path:       fmt.Sprintf("/zz%d/:q", i),
+					PathParams: []rulecfg.ParameterMatcher{{Name: "q", Type: "exact", Value: "never-requested"}},
+				})
 			}
 
 			ru, cerr := rf.CreateRule(rulecfg.CurrentRuleSetVersion, fmt.Sprintf("src%d", src), cfg)
@@ -241,9 +251,10 @@ func runRuleLevel(c *engine.Ctx, work *int) {
 				}
 
 				for _, p := range rlProbes {
-					for _, mu := range []string{"GET", "POST", "GET+", "POST+"} {
-						m, upd := strings.TrimSuffix(mu, "+"), strings.HasSuffix(mu, "+")
-						rc := &RuleCase{Kind: "rule-level", Rules: rs, SecondFst: second, HasDefault: def, Method: m, Path: p, ViaUpdate: upd}
+					for _, mu := range []string{"GET", "POST", "GET+", "POST+", "GET2", "POST2"} {
+						m, upd, two := strings.TrimRight(mu, "+2"), strings.HasSuffix(mu, "+"), strings.HasSuffix(mu, "2")
+						rc := &RuleCase{Kind: "rule-level", Rules: rs, SecondFst: second, HasDefault: def, Method: m, Path: p, ViaUpdate: upd,
+							SecondRoute: two}
 
 						got, want, nm, err := execRuleCase(rc)
 
@@ -271,6 +282,10 @@ func runRuleLevel(c *engine.Ctx, work *int) {
 							sig := "rule-level/" + classify(got) + "-instead-of-" + classify(want)
 							if upd {
 								sig += "/reached-via-update"
+							}
+
+							if two {
+								sig += "/rules-with-a-second-route"
 							}
 
 							c.Violation(sig,
@@ -349,6 +364,10 @@ func replayRuleLevel(c *engine.Ctx, raw json.RawMessage) {
 		sig := "rule-level/" + classify(got) + "-instead-of-" + classify(want)
 		if rc.ViaUpdate {
 			sig += "/reached-via-update"
+		}
+
+		if rc.SecondRoute {
+			sig += "/rules-with-a-second-route"
 		}
 
 		c.Violation(sig, "repository and reference disagree", &rc)
